@@ -276,11 +276,6 @@ m("c08_remove_ancilla_prefix", "C08", PB, """        return {k: v for k, v in so
 m("c08_solve_ignores_validity", "C08", PM, """        return solve_pubo_bruteforce(self,
                                      all_solutions, self.is_solution_valid)[1]""", """        return solve_pubo_bruteforce(self,
                                      all_solutions)[1]""")
-m("c08_reduction_penalty_once", "C08", PU, """                if previously_used:
-                    z = reductions[(x, y)]""", """                if previously_used:
-                    z = reductions[(x, y)]
-                    v = 0 * v + v""", expect="equivalent")
-
 # ---------------------------------------------------------------- C14
 m("c14_nbv_per_key", "C14", PM, """            for i in filter(lambda x: x not in self._variables, k):
                 self._variables.add(i)
